@@ -60,7 +60,7 @@ class _Watchdog:
 
 
 WATCHDOG = _Watchdog()
-WATCHDOG_SECONDS = float(os.environ.get("VERIF_WATCHDOG_S", "20"))
+WATCHDOG_SECONDS = float(os.environ.get("VERIF_WATCHDOG_S", "10"))
 
 
 class _Null:
